@@ -51,10 +51,14 @@ def gen_archive(rng: Rng, tier, want_multi=None, want_dirs=None, encrypted=None,
             password = gen.gen_password(r)
         sessions = []
         used = []
+        mixed = password is not None and nsess > 1 and r.chance(0.35)
+        plain_sessions = set(r.sample(range(nsess), r.randint(1, nsess - 1))) if mixed else set()
         for j in range(nsess):
-            s = rw.gen_session(r, "w" if j == 0 else "a", knobs, used, nmax=4, maxlen=maxlen, password=password,
+            s = rw.gen_session(r, "w" if j == 0 else "a", knobs, used, nmax=4, maxlen=maxlen, password=None if j in plain_sessions else password,
                                name_style=r.pick(["ascii", "bmp", "ascii", "dot", None]), safe_prefix=True)
             s["ops"] = [op for op in s["ops"] if _fs_safe_name(op["name"])]
+            if mixed and s["header"] == "crypt":
+                s["header"] = "enc"
             if want_dirs is True or (want_dirs is None and r.chance(0.4)):
                 arc = "d%d%s" % (j, gen.gen_component(r, "ascii"))
                 tr = tree.gen_tree(r, maxdepth=3, nmax=6, name_style=r.pick(["ascii", "bmp"]), block=knobs["block"], maxlen=maxlen, links=r.chance(0.5))
@@ -86,7 +90,7 @@ def gen_archive(rng: Rng, tier, want_multi=None, want_dirs=None, encrypted=None,
 
 
 class Built:
-    __slots__ = ("image", "model", "password", "ref", "nfolders", "error", "rejected")
+    __slots__ = ("image", "model", "password", "ref", "nfolders", "error", "rejected", "opened_without_password")
 
 
 def build_archive(recipe) -> Built:
@@ -336,7 +340,8 @@ def predict(call, built: Built):
         return ("names", nm, nm)
     if op == "needs_password":
         aes = any(c["id"] == RC.M_AES for f in (built.ref.main["folders"] if built.ref and built.ref.main and built.ref.main["folders"] else []) for c in f["coders"])
-        return ("needs_password", bool(aes or built.password is not None))
+        supplied = built.password is not None and not getattr(built, "opened_without_password", False)
+        return ("needs_password", bool(aes or supplied))
     if op == "test":
         return ("test", (None, True))
     if op == "testzip":
@@ -428,6 +433,10 @@ def listing_truth(sess: Session, built: Built):
                 break
             if m.kind != "dir" and f.crc32 is not None and f.crc32 != zlib.crc32(m.data):
                 probs.append(("list.crc32", "%r: crc32 %r, content %r" % (m.name, f.crc32, zlib.crc32(m.data))))
+                break
+            rm = built.ref.members[len(probs) and 0 or model.index(m)] if built.ref is not None and len(built.ref.members) == len(model) else None
+            if rm is not None and rm.crc is not None and not rm.emptystream and f.crc32 != rm.crc:
+                probs.append(("list.crc32", "%r: the archive stores CRC32 %r for this member, the listing reports %r" % (m.name, rm.crc, f.crc32)))
                 break
             if bool(f.is_directory) != (m.kind == "dir"):
                 probs.append(("list.is_directory", "%r: is_directory %r, extraction creates a %s" % (m.name, f.is_directory, m.kind)))
